@@ -95,6 +95,11 @@ func c15(r *Report) {
 	r.Decline("content-encoding handling, large bodies, that the snapshot equals the original beyond its termination (C15.R5)")
 
 	r.Guard("C15.R1", "whoever consumes a message body puts the same bytes back", func() {
+		// a request without a body is not snapshotted by the HAR logger (the snapshot replaces
+		// http.NoBody by a reader and the request is then forwarded chunked)
+		if pdf := r.Use("har", "postData"); pdf != nil {
+			postDataPresenceRule(r, pdf)
+		}
 		// trailers exist only once the body has been read to its end (net/http fills
 		// Request.Trailer / Response.Trailer at EOF, and creates the map there when the
 		// trailer was not announced): every read of the message's Trailer field in a
@@ -334,13 +339,13 @@ func c15(r *Report) {
 				inner = cc
 			}
 		}
-		ok := inner != nil && len(inner.Call.Args) == 1 && inner.Call.Args[0] == ssa.Value(rd.Params[1])
+		ok := inner != nil && len(inner.Call.Args) == 1 && isParamVal(inner.Call.Args[0], rd.Params[1])
 		if ok {
 			ld, isLd := inner.Call.Value.(*ssa.UnOp)
 			ok = isLd
 			if isLd {
 				fa, isFa := ld.X.(*ssa.FieldAddr)
-				ok = isFa && fieldObj(fa).Name() == "body" && fa.X == ssa.Value(rd.Params[0])
+				ok = isFa && fieldObj(fa).Name() == "body" && isParamVal(fa.X, rd.Params[0])
 			}
 		}
 		r.Decide("flow", "(*M/marbl.bodyLogger).Read: reads the wrapped body into the caller's buffer", ok, "bl.body.Read(b)", "the wrapper does not read the wrapped body with the caller's buffer", rd.Pos())
